@@ -118,6 +118,19 @@ def nesting_templates():
             for x in inner:
                 out.append(a + (o % x))
                 out.append(a + (o % x) + b" keep;")
+    # test lists: members of every shape × what stands between and around them
+    members = [b"true", b"not true", b"anyof (true)", b"not anyof (true)", b"not not allof (true, false)", b'header "a" "b"', b'exists ["x"]',
+               b"allof (not anyof (true), false)"]
+    between = [b", ", b" ", b",, ", b" , , ", b") (", b", (", b"), "]
+    for a in members:
+        for b in members[:5]:
+            for sep in between:
+                for head in (b"anyof", b"allof"):
+                    out.append(b"if " + head + b" (" + a + sep + b + b") { stop; }")
+        out.append(b"if allof (" + a + b",) { stop; }")
+        out.append(b"if allof (, " + a + b") { stop; }")
+        out.append(b"if allof (" + a + b") (" + a + b") { stop; }")
+        out.append(b"if not " + a + b" " + a + b" { stop; }")
     return list(dict.fromkeys(out))
 
 
